@@ -247,7 +247,6 @@ func propC15(w *World, r *Report, tier string) {
 		}
 		return f.Name() == "MarshalBinary" || strings.HasPrefix(f.Name(), "build")
 	})
-	r.Expect("seq.len-covers", 1)
 	lenFromContent(w, r, "nasType", func(name string) bool {
 		return strings.Contains(name, "MarshalBinary") || strings.HasPrefix(name, "build")
 	}, []string{"qos_rule.go", "qos_flow_desc.go"})
